@@ -198,6 +198,17 @@ def pipeline_cases(draw):
     steps = draw(gen.legal_pipeline(validation="maybe", fill=False, refinement=False, filters=False, max_post=1))
     a = draw(st.integers(-4, 1))
     p = {"pair": pair, "pipeline": steps, "disp": gen.clamp_interval([a, a + draw(st.integers(0, 5))], pair["W"], steps)}
+    if not big and p["disp"][1] > p["disp"][0] and draw(st.integers(0, 2)) == 0:
+        # per-pixel interval grids inside the scalar interval: both bounds vary, or only one of them does
+        lo_, hi_ = p["disp"]
+        H, W = pair["H"], pair["W"]
+        mid = draw(st.integers(lo_, hi_))
+        style = draw(st.sampled_from(["both", "min-constant", "max-constant"]))
+        vary = lambda a_, b_: draw(st.lists(st.lists(st.integers(a_, b_), min_size=W, max_size=W), min_size=H, max_size=H))  # noqa: E731
+        const = lambda v: [[v] * W for _ in range(H)]  # noqa: E731
+        p["grid"] = {"style": style,
+                     "min": const(lo_) if style == "min-constant" else vary(lo_, mid),
+                     "max": const(hi_) if style == "max-constant" else vary(mid, hi_)}
     return p
 
 
@@ -225,7 +236,13 @@ def pipeline_body(ctx: Ctx, p: dict) -> None:
                     caps[side]["conf_after"] = dsp["confidence_measure"].data.copy() if "confidence_measure" in dsp else None
 
     steps = p["pipeline"]
-    drive.run_pipeline(pipeline=gen.pipe_dict(steps), disp=tuple(p["disp"]), spy=drive.Spy(before=before, after=after), **kw)
+    disp, rdisp = tuple(p["disp"]), None
+    if "grid" in p:
+        glo, ghi = np.array(p["grid"]["min"], dtype=np.float32), np.array(p["grid"]["max"], dtype=np.float32)
+        disp = (glo, ghi)
+        if any(n.split(".")[0] == "validation" for n, _ in steps):
+            rdisp = (-ghi, -glo)
+    drive.run_pipeline(pipeline=gen.pipe_dict(steps), disp=disp, right_disp=rdisp, spy=drive.Spy(before=before, after=after), **kw)
     inv_cfg = next(c for n, c in steps if n == "disparity").get("invalid_disparity", -9999)
     inv = math.nan if inv_cfg == "NaN" else float(inv_cfg)
     ties = allnan = False
@@ -238,6 +255,15 @@ def pipeline_body(ctx: Ctx, p: dict) -> None:
             r, cc = bad[0]
             ctx.violation("C03/not-first-best-cost", f"{side} pixel {(int(r), int(cc))} got {c['d'][r, cc]} expected {exp[r, cc]} "
                                                      f"costs={c['cv'][r, cc].tolist()} type={c['type']} pipeline={steps}")
+        if "grid" in p:
+            # the disparity lies inside the pixel's own requested interval
+            lo_g, hi_g = (glo, ghi) if side == "left" else (-ghi, -glo)
+            got_valid = ~np.isnan(c["d"]) if math.isnan(inv) else (c["d"] != inv)
+            out = got_valid & ((c["d"] < lo_g) | (c["d"] > hi_g))
+            if out.any():
+                r, cc = np.argwhere(out)[0]
+                ctx.violation("C03/disparity-outside-the-pixel-interval", f"{side} pixel {(int(r), int(cc))} got {c['d'][r, cc]}, its interval "
+                                                                          f"is [{lo_g[r, cc]},{hi_g[r, cc]}] (grid style {p['grid']['style']}) pipeline={steps}")
         if not np.array_equal(c["cv"], c["cv_after"], equal_nan=True):
             ctx.violation("C03/cost-volume-modified", f"{side} pipeline={steps}")
         if not np.array_equal(c["mask"], c["m"]):
@@ -250,7 +276,8 @@ def pipeline_body(ctx: Ctx, p: dict) -> None:
         allnan = allnan or bool((~fin.any(axis=2)).any())
         ctx.judged += int(exp.size)
     ctx.case(p, nontrivial=bool(ties and allnan), classes=(["crosses-block-boundary"] if p["pair"]["H"] >= 99 else []) +
-             (["right-side"] if "right" in caps and "d" in caps["right"] else []))
+             (["right-side"] if "right" in caps and "d" in caps["right"] else []) +
+             ([f"grid-{p['grid']['style']}"] if "grid" in p else []))
 
 
 CHECKS = [
